@@ -9,6 +9,18 @@ AX_R = ('axioms: the three real-number axioms of the Coq standard library (Class
         'sig_forall_dec, FunctionalExtensionality.functional_extensionality_dep) where Reals are used; ')
 
 CHECKS = {
+    'C13': dict(
+        technique='Coq proof over R (nsatz modulo sin^2+cos^2=1, atan2 polar-inverse lemma, numpy.mod lemmas) about SDR_TNP, SDR_FP, TP_FP and FP_SDR translated from moment_tensor_conversion.py on every run',
+        text='Theorems in coq/Props/C13.v about the regenerated definitions: for every strike, dip and rake the T/N/P axes are orthonormal; '
+             'normal and slip are exactly the Aki-Richards frame (unit, perpendicular); axes and both orderings of normal/slip rebuild '
+             'the same double-couple tensor; the axes convert back to that normal/slip pair; FP_SDR of the frame returns the original '
+             'strike in [0,2pi), dip in (0,pi/2], rake in (-pi,pi] exactly; the angles returned for any pair of vectors lie in the documented '
+             'ranges. The unit tests check one or two literal triples.',
+        note=AX_R + 'the auxiliary-plane routine SDR_SDR (strike-difference heuristic), its involution, the batched forms and the two planes '
+             'reported by output_convert are NOT theorems (the inlined definition is too large for the kernel to relate to its parts '
+             'in reasonable time): they are judged on the implementation against an independent construction of the two nodal '
+             'planes, including rake = +-pi, vertical and near-horizontal planes and planes with strikes closer than one radian.',
+        design='6 C13'),
     'C14': dict(
         technique='Coq proof over R (lra/nra/field, atan2/acos lemmas of Lib/Trig.v) about E_GD, GD_E, E_tk, tk_uv, basic_cdc_GD, GD_basic_cdc, MT6c_D6 and the system it hands to the solver, all translated from moment_tensor_conversion.py on every run (symbolic numpy arrays)',
         text='Theorems in coq/Props/C14.v about the definitions regenerated from the current source: lune coordinates are invariant under every '
